@@ -195,6 +195,7 @@ def oracle(ctx):
     object_param_krylov_probe(ctx)
     round4_probes(ctx)
     infinite_mask_probe(ctx)
+    reassigned_attribute_probe(ctx)
 
 
 def backward_options_probe(ctx):
@@ -471,6 +472,55 @@ def infinite_mask_probe(ctx):
             if not (eW <= 1e-6 and eb <= 1e-6):
                 ctx.fail("oracle", "rootgrad:infinite-mask", info, {"err_W": eW, "err_b": eb, "nan": bool(torch.isnan(gW).any() or torch.isnan(gb).any())},
                          "implicit-function-theorem gradients to 1e-6")
+
+
+def reassigned_attribute_probe(ctx):
+    """history: rootfinder on a module's method; the caller assigns a NEW tensor to the module's attribute; backward through the earlier
+    result - the gradient w.r.t. the forward-time tensor is the implicit-function-theorem gradient AT the forward-time values (finding
+    F45b: the wrapper believes the object still holds the tensors of the forward call, skips the substitution as 'identical' and the
+    Jacobian of the backward pass is evaluated with the newly assigned values)"""
+    import xitorch as xt
+    from xitorch.optimize import rootfinder
+
+    class ED(xt.EditableModule):
+        def __init__(self, a):
+            self.a = a
+
+        def resid(self, y):
+            return y * y * self.a + y - 1.0
+
+        def getparamnames(self, methodname, prefix=""):
+            return [prefix + "a"]
+
+    class NN(torch.nn.Module):
+        def __init__(self, a):
+            super().__init__()
+            self.a = torch.nn.Parameter(a)
+
+        def resid(self, y):
+            return y * y * self.a + y - 1.0
+    a0 = torch.tensor([0.7, 1.3], dtype=DT)
+    for kind in ("EditableModule", "nn.Module"):
+        outs = []
+        for reassign in (False, True):
+            mod = ED(a0.clone().requires_grad_()) if kind == "EditableModule" else NN(a0.clone())
+            old = mod.a
+            with warnings.catch_warnings():
+                warnings.simplefilter("ignore")
+                y = rootfinder(mod.resid, torch.tensor([0.5, 0.5], dtype=DT), f_tol=1e-13)
+                if reassign:
+                    mod.a = (a0 * 3).requires_grad_() if kind == "EditableModule" else torch.nn.Parameter(a0 * 3)
+                g, = torch.autograd.grad(y.sum(), old, allow_unused=True)
+            outs.append(g)
+        ctx.count(("reassigned-attribute-before-backward", kind), nontrivial=True)
+        # closed form: y^2 a + y - 1 = 0  =>  dy/da = -y^2 / (2 a y + 1)
+        ysol = (-1 + torch.sqrt(1 + 4 * a0)) / (2 * a0)
+        ref = -ysol ** 2 / (2 * a0 * ysol + 1)
+        if outs[0] is None or not float((outs[0] - ref).abs().max()) <= 1e-9:
+            ctx.fail("oracle", "rootgrad:module-method:plain", {"object": kind}, None if outs[0] is None else outs[0].tolist(), ref.tolist())
+        elif outs[1] is None or not float((outs[1] - ref).abs().max()) <= 1e-9:
+            ctx.fail("oracle", "rootgrad:attribute-reassigned-before-backward", {"object": kind, "history": "y = rootfinder(m.resid, y0); m.a = new tensor; grad(y, old tensor)"},
+                     None if outs[1] is None else outs[1].tolist(), ref.tolist())
 
 
 def search(ctx):
